@@ -101,18 +101,118 @@ theorem encMid_both {o : Oracle} {s s' : St} {site : Nat} {il ff : Bool} {req : 
   refine ⟨e2, rfl, ?_⟩
   rw [(encPayload_frame hpay).2.2.2.2.2.2, e7, hfm]
 
-/-
-NOT YET PROVED (draft; the tactic script below loops in Lean 4.33 — `isDefEq` keeps unfolding
-`(encMagic (encEntry s il) s.carry).1` — and needs a formulation that never exposes that term):
+/-- the prelude step from a state that has not finished the catable logic: either nothing is written
+(not catable — then the logic is finished — or no bytes to encode), or a stored block of `n = min 2 bytes`
+bytes is appended and both positions move by `n` -/
+theorem encPrelude_first {s1 s2 : St} {w1 w : Writer} {hdr1 hdr bytes : Nat}
+    (hnb : s1.isFirstMb ≠ .bothCatable) (h : encPrelude s1 w1 hdr1 bytes = .ok (s2, w, hdr)) :
+    (s2.lastFlushPos = s1.lastFlushPos ∧ w = w1 ∧ (s2.isFirstMb = .bothCatable ∨ bytes = 0)) ∨
+    (bytes ≠ 0 ∧ s2.lastFlushPos = s1.lastFlushPos + min 2 bytes
+      ∧ w.length = (w1.length + 20 + 7) / 8 * 8 + 8 * min 2 bytes
+      ∧ (2 ≤ bytes → s2.isFirstMb = .bothCatable)) := by
+  unfold encPrelude at h
+  rw [if_neg hnb] at h
+  by_cases hc : s1.params.catable = true
+  · have hc' : (!s1.params.catable) = false := by rw [hc]; rfl
+    rw [hc'] at h
+    simp only [Bool.false_eq_true, ↓reduceIte] at h
+    by_cases hb : bytes = 0
+    · rw [if_neg (by simpa using hb)] at h
+      simp only [Out.ok.injEq, Prod.mk.injEq] at h
+      obtain ⟨h1, h2, _⟩ := h
+      left
+      exact ⟨by rw [← h1], h2.symm, Or.inr hb⟩
+    · rw [if_pos hb] at h
+      split at h
+      · cases h
+      · split at h
+        · cases h
+        · rename_i hlen
+          simp only [Out.ok.injEq, Prod.mk.injEq] at h
+          obtain ⟨h1, h2, _⟩ := h
+          right
+          have hdl : ((s1.first2.drop s1.lastFlushPos).take (min 2 bytes)).length = min 2 bytes := by
+            have := List.length_take_le (min 2 bytes) (s1.first2.drop s1.lastFlushPos)
+            omega
+          refine ⟨hb, by rw [← h1], ?_, ?_⟩
+          · rw [← h2, storedBlock_length_eq, hdl]
+          · intro h2b
+            rw [← h1]
+            have : min 2 bytes ≥ 2 := by omega
+            simp only [this, ↓reduceIte]
+  · have hc' : (!s1.params.catable) = true := by
+      cases hcc : s1.params.catable
+      · rfl
+      · exact absurd hcc hc
+    rw [if_pos hc'] at h
+    simp only [Out.ok.injEq, Prod.mk.injEq] at h
+    obtain ⟨h1, h2, _⟩ := h
+    left
+    exact ⟨by rw [← h1], h2.symm, Or.inl (by rw [← h1])⟩
 
-theorem encMid_first (h : encodeData o s site il ff = .ok (s', true, req)) (hfm : s.isFirstMb = .nothing)
+theorem encMagic_first (s : St) (w0 : Writer) (hfm : s.isFirstMb = .nothing) :
+    (encMagic s w0).1.isFirstMb ≠ .bothCatable
+    ∧ (encMagic s w0).1.lastFlushPos = s.lastFlushPos
+    ∧ (encMagic s w0).2.1.length = (if s.params.magic then (w0.length + 14 + 7) / 8 * 8 + 8 * (4 + (encodeBase128 10 (s.params.sizeHint % two64)).length) else w0.length) := by
+  unfold encMagic
+  by_cases hmg : s.params.magic = true
+  · rw [if_pos ⟨hfm, hmg⟩, if_pos hmg]
+    exact ⟨by simp, rfl, magicBlock_length_eq _ _⟩
+  · have hn : ¬ (s.isFirstMb = .nothing ∧ s.params.magic = true) := fun hh => hmg hh.2
+    rw [if_neg hn, if_neg hmg]
+    exact ⟨by rw [hfm]; simp, rfl, rfl⟩
+
+/-- the first invocation writes the whole skeleton: exactly `headLen` bits including the carry, with a
+size hint of at most 5 base-128 bytes and a prelude of `pre ≤ 2` bytes; with two bytes to encode the
+prelude logic is finished for good -/
+theorem encMid_first {o : Oracle} {s s' : St} {site : Nat} {il ff : Bool} {req : Req}
+    (h : encodeData o s site il ff = .ok (s', true, req)) (hfm : s.isFirstMb = .nothing)
     (hh : s.params.sizeHint < 2 ^ 35) :
     ∃ kk pre, kk ≤ 5 ∧ pre ≤ 2 ∧ (encMid s il).1.lastFlushPos = s.lastFlushPos + pre
       ∧ (encMid s il).2.length = BV.Header.headLen s.lastBytesBits s.params.magic kk pre
-      ∧ (2 ≤ s.unprocessed % two32 → s'.isFirstMb = .bothCatable)
-
-Ingredients that ARE proved above: `encodeBase128_len`, `magicBlock_length_eq`, `storedBlock_length_eq`,
-`encMid_eq`, `encMid_both`.
--/
+      ∧ (2 ≤ s.unprocessed % two32 → s'.isFirstMb = .bothCatable) := by
+  obtain ⟨s2, w, hdr, hpre, hmid, hpay⟩ := encMid_eq h
+  obtain ⟨e1, e2, _, _, _, _, e7, _⟩ := encEntry_fields s il
+  rw [St.frame_eq_iff] at e1
+  have ep := e1.1
+  have hcl : s.carry.length = s.lastBytesBits := by unfold St.carry; exact bitsOf_length _ _
+  have hk : (encodeBase128 10 (s.params.sizeHint % two64)).length ≤ 5 :=
+    encodeBase128_len 10 5 _ (by decide) (by
+      have : s.params.sizeHint % two64 ≤ s.params.sizeHint := Nat.mod_le _ _
+      have : (128 : Nat) ^ 5 = 2 ^ 35 := by decide
+      omega)
+  have hfin : s'.isFirstMb = s2.isFirstMb := (encPayload_frame hpay).2.2.2.2.2.2
+  obtain ⟨hm1, hm3, hm4⟩ := encMagic_first (encEntry s il) s.carry (by rw [e7, hfm])
+  rw [ep, hcl] at hm4
+  rw [e2] at hm3
+  have hP := encPrelude_first hm1 hpre
+  rw [hm3, hm4] at hP
+  have key : ∃ kk pre, kk ≤ 5 ∧ pre ≤ 2 ∧ s2.lastFlushPos = s.lastFlushPos + pre
+      ∧ w.length = BV.Header.headLen s.lastBytesBits s.params.magic kk pre
+      ∧ (2 ≤ s.unprocessed % two32 → s'.isFirstMb = .bothCatable) := by
+    rw [hfin]
+    refine ⟨(encodeBase128 10 (s.params.sizeHint % two64)).length, s2.lastFlushPos - s.lastFlushPos, hk, ?_⟩
+    generalize (encodeBase128 10 (s.params.sizeHint % two64)).length = kk at hP hm4 ⊢
+    generalize s.unprocessed % two32 = bytes at hP ⊢
+    rcases hP with ⟨a1, a2, a3⟩ | ⟨b1, b2, b3, b4⟩
+    · have hz : s2.lastFlushPos - s.lastFlushPos = 0 := by omega
+      rw [hz]
+      refine ⟨Nat.zero_le _, a1, ?_, ?_⟩
+      · rw [a2, hm4]
+        unfold BV.Header.headLen
+        simp only [ne_eq, not_true_eq_false, ↓reduceIte]
+      · intro h2
+        rcases a3 with a | a
+        · exact a
+        · omega
+    · have hz : s2.lastFlushPos - s.lastFlushPos = min 2 bytes := by omega
+      rw [hz]
+      refine ⟨Nat.min_le_left _ _, b2, ?_, b4⟩
+      rw [b3]
+      unfold BV.Header.headLen
+      have hne : min 2 bytes ≠ 0 := by omega
+      simp only [ne_eq, hne, not_false_eq_true, ↓reduceIte]
+  rw [hmid]
+  exact key
 
 end BV.Stream
